@@ -15,11 +15,11 @@ Import ListNotations.
 Open Scope N_scope.
 
 Inductive json :=
-| VNull | VBool (b : bool) | VInt (z : Z) | VStr (s : str)
+| VNull | VBool (b : bool) | VInt (z : Z) | VFlt (h : Z) | VStr (s : str)   (* VFlt h: a non-integral number, h halves *)
 | VArr (l : list json) | VObj (m : list (str * json)).
 
 Inductive schema :=
-| SInt (c : numc) | SNum | SStr (lo hi : option N) | SBool | SNullT
+| SInt (c : numc) | SNum | SStr (lo hi : option N) | SBool | SNullT | SAnyT
 | SEnum (vals : list str)
 | SNullable (s : schema)
 | SArr (s : schema) (lo hi : option N)
@@ -30,7 +30,7 @@ Inductive schema :=
 Record finfo := { f_py : str; f_alias : option str; f_req : bool; f_null : bool }.
 
 Inductive pytype :=
-| TInt (k : kwargs) | TFloat | TStr (lo hi : option N) | TBool | TNone
+| TInt (k : kwargs) | TFloat | TStr (lo hi : option N) | TBool | TNone | TAny
 | TEnum (vals : list str)
 | TOpt (t : pytype)
 | TList (t : pytype) (lo hi : option N)
@@ -55,10 +55,11 @@ Definition v_is_null (v : json) : bool := match v with VNull => true | _ => fals
 Fixpoint valid (s : schema) (v : json) {struct s} : bool :=
   match s with
   | SInt c => match v with VInt z => sat_schema c z | _ => false end
-  | SNum => match v with VInt _ => true | _ => false end
+  | SNum => match v with VInt _ | VFlt _ => true | _ => false end
   | SStr lo hi => match v with VStr x => len_ok lo hi (List.length x) | _ => false end
   | SBool => match v with VBool _ => true | _ => false end
   | SNullT => v_is_null v
+  | SAnyT => true
   | SEnum vs => match v with VStr x => mem_str x vs | _ => false end
   | SNullable s' => v_is_null v || valid s' v
   | SArr s' lo hi => match v with VArr l => len_ok lo hi (List.length l) && forallb (valid s') l | _ => false end
@@ -80,10 +81,11 @@ Fixpoint valid (s : schema) (v : json) {struct s} : bool :=
 Fixpoint valid_relaxed (s : schema) (v : json) {struct s} : bool :=
   match s with
   | SInt c => match v with VInt z => sat_schema c z | _ => false end
-  | SNum => match v with VInt _ => true | _ => false end
+  | SNum => match v with VInt _ | VFlt _ => true | _ => false end
   | SStr lo hi => match v with VStr x => len_ok lo hi (List.length x) | _ => false end
   | SBool => match v with VBool _ => true | _ => false end
   | SNullT => v_is_null v
+  | SAnyT => true
   | SEnum vs => match v with VStr x => mem_str x vs | _ => false end
   | SNullable s' => v_is_null v || valid_relaxed s' v
   | SArr s' lo hi => match v with VArr l => len_ok lo hi (List.length l) && forallb (valid_relaxed s') l | _ => false end
@@ -106,16 +108,18 @@ Definition is_topt (t : pytype) : bool := match t with TOpt _ => true | _ => fal
 Definition is_opt (t : pytype) : bool := match t with TOpt _ | TNone => true | _ => false end.
 Definition strip_opt (t : pytype) : pytype := match t with TOpt t' => t' | _ => t end.
 
-(* (a required member whose type admits null is outside the supported sub-language: how it is written
-   depends on the constraint style, see M5 / C05) *)
-Definition mk_field (p : str * (bool * pytype)) (na : str * option str) : finfo * pytype :=
+(* A required member whose type admits null is written either as a required Optional[T] or as
+   Optional[T] = None, depending on the constraint style and on whether it carries constraints (M5 /
+   C05 hold the table); rq = it stays required.  Acceptance holds for both, the structural comparison
+   and the rejection theorem leave such members out (strict). *)
+Definition mk_field (rq : bool) (p : str * (bool * pytype)) (na : str * option str) : finfo * pytype :=
   let t := snd (snd p) in
-  let req := fst (snd p) in
+  let req := fst (snd p) && (rq || negb (is_topt t)) in
   ({| f_py := fst na; f_alias := snd na; f_req := req; f_null := negb req || is_opt t |}, strip_opt t).
 
-Fixpoint zip_fields (ps : list (str * (bool * pytype))) (ns : list (str * option str)) : list (finfo * pytype) :=
+Fixpoint zip_fields (rq : bool) (ps : list (str * (bool * pytype))) (ns : list (str * option str)) : list (finfo * pytype) :=
   match ps, ns with
-  | p :: ps', n :: ns' => mk_field p n :: zip_fields ps' ns'
+  | p :: ps', n :: ns' => mk_field rq p n :: zip_fields rq ps' ns'
   | _, _ => []
   end.
 
@@ -139,7 +143,9 @@ Definition c_is_none (c : numc) : bool :=
   end.
 Definition on_is_none (o : option N) : bool := match o with None => true | _ => false end.
 
-Fixpoint gen (o : opts) (fc : bool) (p : pos) (s : schema) {struct s} : pytype :=
+Definition is_snullt (s : schema) : bool := match s with SNullT => true | _ => false end.
+
+Fixpoint gen (o : opts) (fc rq : bool) (p : pos) (s : schema) {struct s} : pytype :=
   match s with
   | SInt c => match cnormalize (if drops_bounds fc p then c_none else c) with
               | Some c' => TInt (ctranslate c') | None => TError end
@@ -147,15 +153,19 @@ Fixpoint gen (o : opts) (fc : bool) (p : pos) (s : schema) {struct s} : pytype :
   | SStr lo hi => if drops_bounds fc p then TStr None None else TStr lo hi
   | SBool => TBool
   | SNullT => TNone
+  | SAnyT => TAny
   | SEnum vs => TEnum vs
-  | SNullable s' => TOpt (gen o fc p s')
-  | SArr s' lo hi => if keeps_counts fc p then TList (gen o fc PIn s') lo hi else TList (gen o fc PIn s') None None
-  | SMap s' => TDict (gen o fc PVal s')
-  | SAny alts => TUnion (map (gen o fc PIn) alts)
+  | SNullable s' => TOpt (gen o fc rq p s')
+  | SArr s' lo hi => if keeps_counts fc p then TList (gen o fc rq PIn s') lo hi else TList (gen o fc rq PIn s') None None
+  | SMap s' => TDict (gen o fc rq PVal s')
+  | SAny alts =>
+      (* a null alternative makes the union optional: Optional[T] for one other alternative, Optional[Union[...]] for more *)
+      let ts := flat_map (fun a => if is_snullt a then [] else [gen o fc rq PIn a]) alts in
+      if existsb is_snullt alts then TOpt (match ts with [t] => t | _ => TUnion ts end) else TUnion ts
   | SObj props closed =>
       match assign_names U0 Pyd o [] [] (map fst props) with
       | Some names =>
-          TModel (zip_fields (map (fun q => (fst q, (fst (snd q), gen o fc PTop (snd (snd q))))) props) names) closed
+          TModel (zip_fields rq (map (fun q => (fst q, (fst (snd q), gen o fc rq PTop (snd (snd q))))) props) names) closed
       | None => TError
       end
   end.
@@ -166,10 +176,11 @@ Definition wire (f : finfo) : str := match f_alias f with Some a => a | None => 
 Fixpoint accepts (t : pytype) (v : json) {struct t} : bool :=
   match t with
   | TInt k => match v with VInt z => sat_model k z | _ => false end
-  | TFloat => match v with VInt _ => true | _ => false end
+  | TFloat => match v with VInt _ | VFlt _ => true | _ => false end
   | TStr lo hi => match v with VStr x => len_ok lo hi (List.length x) | _ => false end
   | TBool => match v with VBool _ => true | _ => false end
   | TNone => v_is_null v
+  | TAny => true
   | TEnum vs => match v with VStr x => mem_str x vs | _ => false end
   | TOpt t' => v_is_null v || accepts t' v
   | TList t' lo hi => match v with VArr l => len_ok lo hi (List.length l) && forallb (accepts t') l | _ => false end
@@ -189,7 +200,8 @@ Fixpoint accepts (t : pytype) (v : json) {struct t} : bool :=
   end.
 
 (* ---- the supported sub-language: the guards of the theorems -------------------------------- *)
-Definition is_snullable (s : schema) : bool := match s with SNullable _ => true | _ => false end.
+Definition is_snullable (s : schema) : bool :=
+  match s with SNullable _ => true | SAny alts => existsb is_snullt alts | _ => false end.
 
 Fixpoint nodup_str (l : list str) : bool :=
   match l with [] => true | x :: r => negb (mem_str x r) && nodup_str r end.
@@ -202,8 +214,7 @@ Fixpoint supported (s : schema) : bool :=
   | SMap s' => supported s'
   | SAny alts => forallb supported alts
   | SObj props _ =>
-      nodup_str (map fst props)
-      && forallb (fun p => negb (fst (snd p) && is_snullable (snd (snd p))) && supported (snd (snd p))) props
+      nodup_str (map fst props) && forallb (fun p => supported (snd (snd p))) props
   | _ => true
   end.
 
@@ -218,7 +229,7 @@ Fixpoint strict (fc : bool) (p : pos) (s : schema) : bool :=
   | SArr s' lo hi => (keeps_counts fc p || no_counts s) && strict fc PIn s'
   | SMap s' => strict fc PVal s'
   | SAny alts => forallb (strict fc PIn) alts
-  | SObj props _ => forallb (fun q => strict fc PTop (snd (snd q))) props
+  | SObj props _ => forallb (fun q => negb (fst (snd q) && is_snullable (snd (snd q))) && strict fc PTop (snd (snd q))) props
   | _ => true
   end.
 
@@ -228,7 +239,7 @@ Definition schema_opts : opts :=
      o_noalias := false; o_empty := [] |}.
 
 Definition verdicts (s : schema) (v : json) : list bool :=
-  [valid s v; accepts (gen schema_opts false PTop s) v; valid_relaxed s v; supported s; strict false PTop s].
+  [valid s v; accepts (gen schema_opts false false PTop s) v; valid_relaxed s v; supported s; strict false PTop s].
 
 (* ---- canonical text of a generated type (compared with the canonicalised real output) ------- *)
 Definition sp : str := [32].
@@ -251,6 +262,7 @@ Fixpoint show_ty (t : pytype) {struct t} : str :=
   | TStr lo hi => of_string "(str " ++ show_on lo ++ sp ++ show_on hi ++ of_string ")"
   | TBool => of_string "(bool)"
   | TNone => of_string "(none)"
+  | TAny => of_string "(any)"
   | TEnum vs => of_string "(enum" ++ show_names vs ++ of_string ")"
   | TOpt t' => of_string "(opt " ++ show_ty t' ++ of_string ")"
   | TList t' lo hi => of_string "(list " ++ show_on lo ++ sp ++ show_on hi ++ sp ++ show_ty t' ++ of_string ")"
@@ -266,7 +278,7 @@ Fixpoint show_ty (t : pytype) {struct t} : str :=
   | TError => of_string "(error)"
   end.
 
-Definition gen_text (fc : bool) (s : schema) : str := show_ty (gen schema_opts fc PTop s).
+Definition gen_text (fc : bool) (s : schema) : str := show_ty (gen schema_opts fc false PTop s).
 
 (* ---- C14: where a constraint is written ----------------------------------------------------- *)
 Definition is_pin (p : pos) : bool := match p with PIn => true | _ => false end.
@@ -295,4 +307,26 @@ Fixpoint to_d6 (s : schema) : schema :=
   | SAny alts => SAny (map to_d6 alts)
   | SObj props closed => SObj (map (fun q => (fst q, (fst (snd q), to_d6 (snd (snd q))))) props) closed
   | _ => s
+  end.
+
+(* ---- schemas as prefix tokens (the format the driver reads; used to compare inferred schemas) - *)
+Definition show_excl (x : excl) : str :=
+  match x with XNone => [126] | XBool true => [116] | XBool false => [102] | XNum v => show_z v end.
+Fixpoint show_schema (s : schema) {struct s} : str :=
+  match s with
+  | SInt c => of_string "I " ++ show_oz (c_min c) ++ sp ++ show_oz (c_max c) ++ sp ++ show_excl (c_xmin c) ++ sp
+              ++ show_excl (c_xmax c) ++ sp ++ show_oz (c_mult c)
+  | SNum => [78]
+  | SStr lo hi => of_string "S " ++ show_on lo ++ sp ++ show_on hi
+  | SBool => [66]
+  | SNullT => [90]
+  | SAnyT => [89]
+  | SEnum vs => of_string "E " ++ dec (N.of_nat (List.length vs)) ++ show_names vs
+  | SNullable s' => of_string "? " ++ show_schema s'
+  | SArr s' lo hi => of_string "A " ++ show_on lo ++ sp ++ show_on hi ++ sp ++ show_schema s'
+  | SMap s' => of_string "M " ++ show_schema s'
+  | SAny alts => of_string "U " ++ dec (N.of_nat (List.length alts)) ++ flat_map (fun a => sp ++ show_schema a) alts
+  | SObj props closed =>
+      of_string "J " ++ show_b closed ++ sp ++ dec (N.of_nat (List.length props))
+      ++ flat_map (fun q => sp ++ show_name (fst q) ++ sp ++ show_b (fst (snd q)) ++ sp ++ show_schema (snd (snd q))) props
   end.
